@@ -605,6 +605,9 @@ func Parts(mode string) func() []mc.Part {
 			// heights are the keys of the expiry queue: this chain starts at 204, so contracts expire at 254..257
 			mc.ExplorePart("plain-at-height-204", New(Variant{Name: "plain-at-height-204", Mode: mode, InitialHeight: 204}), 6, 8, false, rule),
 		}
+		if mode == "C04" {
+			ps = append(ps, GenesisAssertionPart())
+		}
 		if mode == "C04" || mode == "C03" {
 			// governance removes an asset from the parameters and lists it again: its supply records must survive
 			ps = append(ps, mc.ExplorePart("cross-chain-relisting", New(Variant{Name: "cross-chain-relisting", Mode: mode, Cross: true, Relist: true}), 5, 6, false, rule))
